@@ -887,6 +887,8 @@ val code_index : char list -> (z * char list) option
 
 val code_word : char list -> ctok
 
+val span_name : nat -> char list -> char list * char list
+
 val lex_code : nat -> char list -> ctok list
 
 val stmt_of_code :
